@@ -102,7 +102,7 @@ def _cipher_cases(tier, rng):
         out.add(n)
         for k in (range(len(n)) if tier == "thorough" else [0, 1, len(n) // 2, len(n) - 2, len(n) - 1]):
             out.add(n[:k])
-        out.add(n.lower()); out.add(n.title()); out.add(n + "_"); out.add(n + " "); out.add(" " + n); out.add(n + "8")
+        out.add(n.lower()); out.add(n.upper()); out.add(n.swapcase()); out.add(n.title()); out.add(n + "_"); out.add(n + " "); out.add(" " + n); out.add(n + "8")
         k = rng.randrange(len(n)); c = n[k]
         out.add(n[:k] + ("X" if c != "X" else "Y") + n[k+1:])
         out.add(n[:k] + n[k+1:])
@@ -116,7 +116,26 @@ def _cipher_cases(tier, rng):
     cases += ["@cipher %d" % i for i in (range(65536) if tier == "thorough" else sorted(set(ids) | set(listed) | set(range(0, 65536, 251))))]
     return [Case(l, "", "registry") for l in cases]
 
+def _length_sweep(tier, rng):
+    """declared lengths x versions x content types, header only / header + a few bytes (C02: the cap must not
+    depend on version or type; Needed must be exact)"""
+    from vlib import Case
+    if tier == "thorough": lens = range(65536)
+    else: lens = sorted(set(range(0, 65536, 37)) | set(range(16600, 16700)) | set(range(0, 40)) | set(range(65500, 65536))
+                        | {16384, 16385, 18432, 18433, 32767, 32768})
+    vers = [0x0300, 0x0301, 0x0302, 0x0303, 0x0304, 0xfeff, 0xfefd, 0x7f12, 0x0000, 0xffff]
+    out = []
+    for L in lens:
+        for v in (vers if tier == "thorough" or 16600 <= L < 16700 else [rng.choice(vers), rng.choice(vers[:5])]):
+            ct = rng.choice([20, 21, 22, 23, 24, rng.randrange(256)])
+            hdr = bytes([ct, v >> 8, v & 255, L >> 8, L & 255])
+            tail = bytes(rng.randrange(256) for _ in range(rng.choice([0, 0, 1, 3])))
+            for e in ("parse_tls_raw_record", "parse_tls_encrypted", "parse_tls_plaintext"):
+                out.append(Case("%s %s" % (e, (hdr + tail).hex()), "", "lengths"))
+    return out
+
 def extra_cases(pid, tier, seed, rng):
+    if pid == "C02": return _length_sweep(tier, rng)
     if pid == "C12": return _cipher_cases(tier, rng)
     if pid == "C17": return _nt_cases(tier, rng)
     if pid == "C08": return _state_cells(tier, rng)
